@@ -40,6 +40,11 @@ package middlewares
 //@ func VerifyV4Signature$1$1
 //@   at-call utils.NewAuthReader {C02} [deferred-check-uses-the-account-secret] requires $3 == account.Secret && $2 == authData && $0 == ctx
 // (C06) a payload hash sent with a presigned upload is verified by a hashing reader below the one that checks the signature
+// the wrapper that installs the chunk decoder either returns a decoder or leaves the failure in the handler's err (the variable
+// the handler tests before it passes the request on): a failure that stays inside the wrapper lets the request through with
+// no body reader at all — and with it without the deferred signature check
+//@ func VerifyV4Signature$1$2
+//@   at-return {C02,C06,C12} [a-decoder-or-a-failure-the-handler-sees] ensures ret0 != nil || captured(err) != nil
 //@ func VerifyPresignedV4Signature$1$1
 //@   at-call utils.NewHashReader {C06} [the-sha256-reader-wraps-the-installed-reader-with-the-declared-hash] requires $0 == in0 && $1 == hashPayload && $2 == utils.HashTypeSha256Hex
 //@   at-return {C06} [the-sha256-reader-is-what-gets-installed] ensures called("utils.NewHashReader") && ret0 == iface(result("utils.NewHashReader", 0))
